@@ -520,6 +520,11 @@ NASTY_STRINGS = [
 ]
 
 
+# every format-significant token alone, leading, trailing and in the middle of an otherwise plain string (and before a line break)
+MARKERS = ['---', '...', '-', '?', ':', '#', '|', '>', '&a', '*a', '!', '!!str', '%', '@', '`', "'", '\\"', '{', '}', '[', ']', ',', '(', ')', ';', '.', '\\\\', '=', '<<', '~']
+MARKER_STRINGS = [t % m for m in MARKERS for t in ('%s', '%s tail', 'head %s', 'head %s tail', 'head %s\\n', 'head %s\ntail')]
+
+
 def nasty_program(s, i):
     # the string is the format of a print that has no placeholders unless it contains ~ (then arguments are supplied)
     n = 0
@@ -626,11 +631,11 @@ def replay_path(exe, root, pi, path, text, decoy=None):
         os.makedirs(os.path.join(wd, d), exist_ok=True)
     if decoy is not None:
         replay_path(exe, root, pi, path, decoy)
-    open(os.path.join(wd, 'prog.fml'), 'w', encoding='utf-8').write(text)
     P, C, E = path['parse'], path['compile'], path['execute']
-    args = ['parse'] + (['prog.fml'] if P['in'] == 'file' else []) + (['--format', P['fmt']] if P['explicit'] else [])
+    open(os.path.join(wd, P['src']), 'w', encoding='utf-8').write(text)
+    args = ['parse'] + ([P['src']] if P['in'] == 'file' else []) + (['--format', P['fmt']] if P['explicit'] else [])
     args += {'file': ['-o', 'a/tree.' + P['fmt']], 'fileneutral': ['-o', 'a/tree.out'], 'filewrong': ['-o', path['ast']['path']], 'dir': ['-o', 'd'], 'stdout': []}[P['out']]
-    rc, so, se = run_stage(exe, wd, args, stdin_path=('prog.fml' if P['in'] == 'stdin' else None), capture_to=('a/captured.txt' if P['out'] == 'stdout' else None))
+    rc, so, se = run_stage(exe, wd, args, stdin_path=(P['src'] if P['in'] == 'stdin' else None), capture_to=('a/captured.txt' if P['out'] == 'stdout' else None))
     obs = {'stages': [('parse', rc)], 'stderr': se}
     if rc != 0 or not os.path.exists(os.path.join(wd, path['ast']['path'])):
         obs['failed'] = 'parse' if rc != 0 else 'parse-artifact-missing'
@@ -677,6 +682,9 @@ def c06(tier):
     for i, s in enumerate(NASTY_STRINGS):
         ast = nasty_program(s, i)
         payloads.append({'name': 'string:%d:%r' % (i, s[:24]), 'text': unparse(ast), 'ast': ast, 'paths': 'few'})
+    for i, s in enumerate(MARKER_STRINGS):
+        ast = nasty_program(s, 1000 + i)
+        payloads.append({'name': 'marker:%d:%r' % (i, s[:24]), 'text': unparse(ast), 'ast': ast, 'paths': 'formats' if tier != 'thorough' else 'few'})
     depths = [1, 2, 10, 40, 41, 42, 61, 62, 63, 64, 100, 125, 126, 127, 128, 129, 200, 400] if tier == 'thorough' else [1, 30, 62, 63, 126, 128, 400]
     for kind in ('block', 'op', 'if', 'call', 'object', 'array'):
         for d in depths:
